@@ -21,6 +21,9 @@ func genAll(env vh.Env, r *vh.Rand) []Case {
 	for i, n := 0, env.N(300, 10); i < n; i++ {
 		cases = append(cases, genAPICase(r.Fork()))
 	}
+	for i, n := 0, env.N(300, 10); i < n; i++ {
+		cases = append(cases, genCfgCase(r.Fork()))
+	}
 	cases = append(cases, genSyntax(env, r)...)
 	return cases
 }
